@@ -843,6 +843,10 @@ public:
       }
     }
 
+    // A drain that timed out re-enables _accepting. The service is going down
+    // regardless: refuse new timers instead of accepting ones that never fire.
+    _accepting.store(false, std::memory_order_release);
+
     // Now transition to Stopped
     bool expected = true;
     if (_running.compare_exchange_strong(expected, false, std::memory_order_acq_rel))
